@@ -36,4 +36,21 @@ for n in range(2, 10):
         t = 'self.%s.put(%s, v%d)' % (fs[i], t, i + 1)
     out.append('//@   model put(self, s, %s) = %s' % (', '.join('v%d' % (i + 1) for i in range(n)), t))
     out.append('')
+    # the constructor: component k is the field lens ForProductN derives for position k
+    out.append('//@ func ForShape%d' % n)
+    out.append('//@   props C01 C04')
+    out.append('//@   opt overflow=off')
+    out.append('//@   opt lemmas=nth_take,len_take')
+    out.append('//@   ghost all := flatten(fieldsof(pureof(rtypeof(T))), 0, [])')
+    for i in range(n):
+        out.append('//@   ghost off%d := ite(len(attr) == 0, loc(firsttype(all, rtypeof(%s))), loc(firstname(all, attr[%d])))' % (i + 1, ts[i], i))
+    out.append('//@   may_panic_when true')
+    out.append('//@   ensures result != nil')
+    for i in range(n):
+        out.append('//@   ensures component_%d_is_the_field_in_position_%d: forall s T :: result.get%d(s) == fget(s, off%d, %s)' % (i + 1, i + 1, i + 1, i + 1, ts[i]))
+    t = 's'
+    for i in reversed(range(n)):
+        t = 'fput(%s, off%d, v%d)' % (t, i + 1, i + 1)
+    out.append('//@   ensures writes_every_component_into_its_field: forall s T, %s :: result.put(s, %s) == %s' % (', '.join('v%d %s' % (i + 1, ts[i]) for i in range(n)), ', '.join('v%d' % (i + 1) for i in range(n)), t))
+    out.append('')
 open('/repo/optics/zz_contracts_verif.go', 'w').write('\n'.join(out))
